@@ -507,6 +507,7 @@ func runC03(c *Ctx, d c03Desc) {
 	ok := inv.Wait(6*time.Second) && inv.Err == nil && bytes.Equal(inv.W.Body(), []byte("ok-body"))
 	c.Check(ok, "first_invocation_succeeds", "C03/first-invocation-fails", "all parties arrived and behaved, yet the first invocation did not succeed", vh.ErrName(inv.Err))
 
+	lifecycleOracle(c, w)
 	c.SetInterleaving(strings.Join(d.Order, ">"))
 	c.SetTrace(fmt.Sprintf("e%v i%v d%d ", d.Ext, d.Int, d.Dirs)+strings.Join(d.Order, ">"), true)
 	if c.WantSample || c.Violated() {
@@ -804,6 +805,7 @@ func runC04(c *Ctx, d c04Desc) {
 	for _, o := range d.Orders {
 		os = append(os, strings.Join(o, ">"))
 	}
+	lifecycleOracle(c, w)
 	c.SetInterleaving(strings.Join(os, "|"))
 	c.SetTrace(fmt.Sprintf("e%v i%v %v ", d.Ext, d.Int, d.Mode)+strings.Join(os, "|"), true)
 	if c.WantSample || c.Violated() {
